@@ -79,8 +79,13 @@ func (l Logger) ServeHTTP(w http.ResponseWriter, r *http.Request) (int, error) {
 					hostip, _, err := net.SplitHostPort(r.RemoteAddr)
 					if err == nil {
 						maskedIP := e.Log.MaskIP(hostip)
-						// Overwrite log value with Masked version
+						// Overwrite log value with Masked version,
+						// for the line of this entry only
+						unmasked := rep.Replace("{remote}")
 						rep.Set("remote", maskedIP)
+						e.Log.Println(rep.Replace(e.Format))
+						rep.Set("remote", unmasked)
+						continue
 					}
 				}
 				e.Log.Println(rep.Replace(e.Format))
